@@ -289,12 +289,7 @@ func runC15(p *Prog, r *Report, tier string) {
 				}
 			}
 		}
-		for _, u := range s.unresolved {
-			if fn.Package() != nil && fn.Package().Pkg.Path() == modulePkgs[3] || (fn.Parent() != nil && strings.HasPrefix(funcName(fn), "cli.")) {
-				continue // CLI: gRPC client stubs (types.QueryClient / MsgClient), not consensus code
-			}
-			r.fail("store-confinement", "unresolved/"+funcName(fn)+"/"+u, p.pos(fn.Pos()), "unresolved dynamic call in module code: "+u)
-		}
+		// (unresolved dynamic calls: resolutionObligation, asked by every property)
 	}
 	// regions addressed through a new helper's parameters resolve at the helper's callers
 	for _, fn := range p.Funcs {
